@@ -1304,8 +1304,18 @@ impl RestoreManager {
             // Build chain of incrementals back to full
             let mut chain = vec![metadata.clone()];
             let mut current = metadata;
+            // Ids already followed: a parent_id cycle must end the walk, not loop forever.
+            let mut visited = vec![backup_id];
 
             while let Some(parent_id) = current.parent_id {
+                if visited.contains(&parent_id) {
+                    return Err(anyhow!(
+                        "Backup chain of {} revisits {} (cycle in parent_id)",
+                        backup_id,
+                        parent_id
+                    ));
+                }
+                visited.push(parent_id);
                 let parent_path = self.backup_dir.join(format!("backup_{}.json", parent_id));
                 if !parent_path.exists() {
                     return Err(anyhow!("Parent backup {} not found", parent_id));
@@ -1464,6 +1474,13 @@ impl RestoreManager {
 
             match next {
                 Some(backup) => {
+                    // A chain cannot be longer than the listing: a parent_id cycle must end the walk.
+                    if incrementals.len() >= backups.len() {
+                        return Err(anyhow!(
+                            "Backup chain from {} does not end (cycle in parent_id)",
+                            full_backup.id
+                        ));
+                    }
                     incrementals.push(backup);
                     current_id = backup.id;
                 }
